@@ -197,7 +197,7 @@ func (u *Unit) checkPre(fr *Frame, st *State, ct *Contract, sig *types.Signature
 		}
 		u.counters[label]++
 		name := fmt.Sprintf("%s/site%d", label, u.counters[label])
-		u.addOblNamed(st, "pre@call", name, "precondition of "+key+": "+r.Src, pos, u.evalBool(env, r.Expr))
+		u.addOblNamed(st, "pre@call", name, "precondition of "+key+": "+r.Src, pos, u.evalBoolF(env, st, r.Expr))
 	}
 }
 
@@ -265,7 +265,7 @@ func (u *Unit) applyContract(fr *Frame, st *State, ct *Contract, sig *types.Sign
 		}
 	}
 	for _, e := range ct.Ensures {
-		u.assume(st, u.evalBool(env, e.Expr))
+		u.assume(st, u.evalBoolF(env, st, e.Expr))
 	}
 	return results
 }
